@@ -407,4 +407,13 @@ def merge_state_survives(repo: Repo) -> RuleRun:
 
 merge_state_survives.rule_id = "C05.USER-STATE-SURVIVES"
 
-RULES = [lookup_before_create, dense_index, tolerance_siblings, eq_hash, slave_only, corner_patches, add_scenarios, merge_state_survives]
+def no_stale_lazy_cache(repo: Repo) -> RuleRun:
+    """The set of slave patches is read from the merged pairs as they are NOW: no value cached on first use survives a later merge_patches()."""
+    from ..memo import lazy_cache_rule
+
+    return lazy_cache_rule(repo, PROP, "C05.NO-STALE-CACHE", ('lists.', 'mesh'))
+
+
+no_stale_lazy_cache.rule_id = "C05.NO-STALE-CACHE"
+
+RULES = [lookup_before_create, dense_index, tolerance_siblings, eq_hash, slave_only, corner_patches, add_scenarios, merge_state_survives, no_stale_lazy_cache]
